@@ -46,6 +46,7 @@ def run(ctx):
     _spellings(ctx, entries)
     _python_values(ctx, entries)
     J.verbatim_payload(ctx, 'C05.D1', entries, fn)
+    J.time_fields_exact(ctx, 'C05.D1', entries, fn)
     _structure(ctx)
     _freshness(ctx)
     # date-times with a zone name denote the written instant (clause shared with C17.D2)
@@ -218,7 +219,7 @@ def _structure(ctx):
         ctx.ob('C05.D2', 'the one-element normalisation is applied to dict input only', True, '%s:%d' % (FPp, pp.lineno))
 
 
-def _freshness(ctx):
+def _freshness(ctx, rule='C05.D3'):
     """C05.D3: destructive operations only on fresh (json.loads / deepcopy) objects or what is derived from them."""
     m = ctx.model
     mod = m.mod('jsonparser')
@@ -367,10 +368,10 @@ def _freshness(ctx):
             # stores into grid objects / freshly built containers are not about the input
             n_sites += 1
             if norm(target).split('.')[0].split('[')[0] in ('grid',) or is_fresh(target):
-                ctx.ob('C05.D3', '%s: %s on %s acts on a fresh object' % (fn.name, what, norm(target)), True,
+                ctx.ob(rule, '%s: %s on %s acts on a fresh object' % (fn.name, what, norm(target)), True,
                        '%s:%d' % (FJ, n.lineno))
             else:
-                ctx.violation('C05.D3', '%s::%s' % (FJ, fn.name), norm(n) if not isinstance(n, ast.Call) else norm(n),
+                ctx.violation(rule, '%s::%s' % (FJ, fn.name), norm(n) if not isinstance(n, ast.Call) else norm(n),
                               'hszinc.parse(obj, mode=MODE_JSON) with a pre-decoded dict: after the call obj has lost '
                               'keys (%s on %s)' % (what, norm(target)),
                               '%s %s on `%s`, which may be (part of) the caller\'s own object: it is neither the result of '
@@ -393,11 +394,11 @@ def _freshness(ctx):
                 if isinstance(t, ast.Subscript) and norm(t.value) in ('grid_str', 'grid_data'):
                     bad.append(n)
     if bad:
-        ctx.violation('C05.D3', 'hszinc/parser.py::parse', norm(bad[0]), 'the caller\'s list/dict is changed by parse()',
+        ctx.violation(rule, 'hszinc/parser.py::parse', norm(bad[0]), 'the caller\'s list/dict is changed by parse()',
                       'parser.parse mutates its input: %s' % norm(bad[0]), file='hszinc/parser.py', line=bad[0].lineno,
                       engine='E7')
     else:
-        ctx.ob('C05.D3', 'parser.parse hands the caller\'s object on unchanged', True, 'hszinc/parser.py:%d' % pp.lineno)
+        ctx.ob(rule, 'parser.parse hands the caller\'s object on unchanged', True, 'hszinc/parser.py:%d' % pp.lineno)
 
 
 def _names(t):
